@@ -387,6 +387,11 @@ class SchemaBuilder(
                         types = [types]
                     if "null" not in types:
                         result = JsonSchema({**result, "type": [*types, "null"]})
+                        # null must also be part of the allowed values
+                        if "enum" in result:
+                            result["enum"] = [*result["enum"], None]
+                        elif "const" in result:
+                            result["enum"] = [result.pop("const"), None]
                     return result
             else:
                 raise NotImplementedError
